@@ -5,6 +5,7 @@
 From Coq Require Import List Bool Arith NArith.
 From PC Require Import Base.Atoms Base.Outcome Model.Indent Proofs.Indent Model.SaveState Proofs.SaveState.
 From PC Require Import Model.Purity Proofs.Purity Proofs.SaveQueries Proofs.WriteBytes.
+From PC Require Import Base.Xml Model.Emit Proofs.Emit Proofs.EmitSave.
 Import ListNotations.
 
 (* ---- xmlutil.indent *)
@@ -212,6 +213,34 @@ End C03_bytes.
 Print Assumptions C03_bytes_of_write.
 Print Assumptions C03_write_after_failures_bytes.
 Print Assumptions C03_write_twice_bytes.
+
+(* ---- object-level save(), for the classes the C06 family models (Model/Emit.v, read-only):
+   Model/SaveState.v takes an object's save() to be a deterministic emission and stands an atom
+   ([ocont]) for it.  For geometry (sources, primitives, vertices), node (recursive: transforms,
+   instances, bind_material), visual scene, light, camera, material and float source, C06's codecs
+   make this a theorem: what save() writes is [emit_K content] - a function of the content, free
+   of identities - from which the content reads back; so saving an element that save() produced
+   emits the same element again, and equal emissions mean equal contents. *)
+Theorem C03_object_save_fixed_point : forall arr,
+  (forall g, wf_geometry g -> resave geometry (emit_geometry arr) read_geometry (emit_geometry arr g) = Some (emit_geometry arr g)) /\
+  (forall n, resave node emit_node read_node (emit_node n) = Some (emit_node n)) /\
+  (forall s, wf_scene s -> resave vscene emit_scene read_scene (emit_scene s) = Some (emit_scene s)) /\
+  (forall l, wf_light l -> resave light emit_light read_light (emit_light l) = Some (emit_light l)) /\
+  (forall c, wf_camera c -> resave camera emit_camera read_camera (emit_camera c) = Some (emit_camera c)) /\
+  (forall m, resave material emit_material read_material (emit_material m) = Some (emit_material m)) /\
+  (forall s, resave source (emit_source arr) read_source (emit_source arr s) = Some (emit_source arr s)).
+Proof. exact object_save_fixed_point. Qed.
+Print Assumptions C03_object_save_fixed_point.
+
+Theorem C03_emission_injective : forall arr,
+  (forall g1 g2, wf_geometry g1 -> wf_geometry g2 -> emit_geometry arr g1 = emit_geometry arr g2 -> g1 = g2) /\
+  (forall n1 n2, emit_node n1 = emit_node n2 -> n1 = n2) /\
+  (forall s1 s2, wf_scene s1 -> wf_scene s2 -> emit_scene s1 = emit_scene s2 -> s1 = s2) /\
+  (forall l1 l2, wf_light l1 -> wf_light l2 -> emit_light l1 = emit_light l2 -> l1 = l2) /\
+  (forall c1 c2, wf_camera c1 -> wf_camera c2 -> emit_camera c1 = emit_camera c2 -> c1 = c2) /\
+  (forall m1 m2, emit_material m1 = emit_material m2 -> m1 = m2).
+Proof. exact emission_injective. Qed.
+Print Assumptions C03_emission_injective.
 
 (* ---- non-vacuity *)
 
